@@ -521,7 +521,17 @@ impl Sim {
 
     /// `ChitchatMessage::deserialize` on arbitrary bytes: outcome, structure, unconsumed rest and
     /// announced length are compared with the model's decoder.
+    /// A byte string the harness's independent encoder produced from a well-formed message within the
+    /// documented layout: the implementation must accept it (C08).
+    pub fn decode_expect_ok(&mut self, bytes: &[u8]) {
+        self.decode_tagged(bytes, "DECODEOK");
+    }
+
     pub fn decode(&mut self, bytes: &[u8]) {
+        self.decode_tagged(bytes, "DECODE");
+    }
+
+    fn decode_tagged(&mut self, bytes: &[u8], tag: &str) {
         if self.dead_case {
             return;
         }
@@ -532,7 +542,7 @@ impl Sim {
                 Err(_) => "ERR".to_string(),
             }
         }));
-        let op = format!("DECODE {}{}", hex(bytes), crate::util::zd_table_of_message(bytes));
+        let op = format!("{tag} {}{}", hex(bytes), crate::util::zd_table_of_message(bytes));
         match res {
             Ok(obs) => self.record(&op, &obs),
             Err(_) => self.record_panic(&op),
